@@ -42,7 +42,11 @@ RULE = ("memo: per case a pool of ~280 call specs over array families built to c
         "came from the dataset interface followed by a read of the same feature. hash: 60-200 "
         "hashfile calls over 2-4 files with rewrites; non-trivial = >= 1 rewrite between two "
         "calls with the same arguments. contour: LazyContourList with capacity 1..5/None over "
-        "mask stacks; non-trivial = >= 1 hit after an eviction")
+        "mask stacks (ndarray, h5py dataset, list); non-trivial = >= 1 hit after an eviction. "
+        "exh: every argument tuple of length <= 2 (thorough: <= 3) over an alphabet of 30 "
+        "look-alike values (1, '1', 1.0, True, [1, 2], [12], (1, 2), '12', nested lists, empty "
+        "arrays of different dtype, one-element arrays viewed as other dtypes/shapes) passed to "
+        "two decorated echo functions with the capacity raised so that all calls stay cached")
 LEVEL_TEXT = ("Held on the observed executions: every monitored memoised call returned what a "
               "fresh execution of the undecorated function returned on copies of the same "
               "arguments, no cached value changed between insertion and hand-out, hashfile "
@@ -67,10 +71,15 @@ ASSUMPTIONS = [
     "file modifications that leave size and mtime_ns unchanged are outside the documented key "
     "and are skipped (counted as skipped_dc_same_stat)",
 ]
-MIN_EVALS = {"memo_equals_fresh": 1500, "memo_unchanged": 300, "hashfile_equals_md5": 300,
-             "hashfile_equals_fresh": 300, "contour_equals_fresh": 500,
-             "scalar_array_equals_fresh": 500, "feat_read_equals_model": 500,
-             "ds_call_repeatable": 50}
+MIN_EVALS = {"memo_equals_fresh": 10000, "memo_unchanged": 3000, "hashfile_equals_md5": 2000,
+             "hashfile_equals_fresh": 2000, "contour_equals_fresh": 3000,
+             "feat_contour_equals_model": 300, "scalar_array_equals_fresh": 10000,
+             "feat_read_equals_model": 2000, "ds_call_repeatable": 300}
+
+
+def min_evals(tier):
+    f = 1 if tier == "quick" else 20
+    return {k: v * f for k, v in MIN_EVALS.items()}
 WATCHDOG_S = {"quick": 400, "thorough": 3000}
 
 D09 = "cache-key-is-undelimited-bytes"
@@ -86,7 +95,7 @@ def plan(tier, seed):
         n = {"memo": 48, "feat": 64, "hash": 64, "contour": 64}
         k = {"memo": 16, "feat": 8, "hash": 4, "contour": 4}
     else:
-        n = {"memo": 1536, "feat": 2560, "hash": 2560, "contour": 2560}
+        n = {"memo": 1280, "feat": 2048, "hash": 2048, "contour": 2048}
         k = {"memo": 64, "feat": 32, "hash": 16, "contour": 16}
     shards = []
     for kind in ("memo", "feat", "hash", "contour"):
